@@ -129,13 +129,21 @@ class CVRPTW(Adapter):
         if td.shape[0] != 1:
             # fast path for whole batches.  The checker compares every row with the depot closing
             # time of row 0, so rows are checked together only with rows of the same horizon (then
-            # the batch verdict is exactly the conjunction of the row verdicts).
+            # the batch verdict is exactly the conjunction of the row verdicts) ...
             h = td["time_windows"][:, 0, 1]
             for v in h.unique():
                 idx = (h == v).nonzero().flatten()
                 env.check_solution_validity(td[idx], actions[idx])
+            for r in range(td.shape[0]):            # ... and every row once more behind its mate
+                self._behind_mate(env, td[r:r + 1], actions[r:r + 1])
             return
         env.check_solution_validity(td, actions)
+        self._behind_mate(env, td, actions)
+
+    def _behind_mate(self, env, td, actions):
+        """the verdict must not depend on the batch-mates (C06 for every instance of a batch):
+        the accepted row is checked again as row 1 of a two-row batch whose row 0 is a
+        well-formed instance (accepted on its own) with an earlier depot closing time."""
         row = TensorDict({k: td[k].clone() for k in self.KEYS}, batch_size=[1])
         mate = self._mate(row, actions)
         if mate is None:
